@@ -110,6 +110,45 @@ ObjectClause(e) ==
   ELSE IF ~e.printed THEN "printing_fails_or_misreports_shape"
   ELSE "none"
 
+\* kind = "unseen": evaluate_new_data on a frame with unseen levels / new groups (C10)
+\*   train, new: abstract frames (new is coded with the training level tables; unseen = a code
+\*   outside them);  part "common" | "group";  mode;  status;  warned
+\*   labels, tslices: labels and slices of the TRAINING matrix;  data, slices: the returned object
+\*   tfac: per term the grouping factor's variables;  factors_new: reported factor names (as variable lists)
+PieceVars(lab) == {lab[k][1] : k \in 1..Len(lab)}
+LabelVars(e) ==
+  IF e.part = "common" THEN UNION {PieceVars(e.labels[j]) : j \in 1..Len(e.labels)}
+  ELSE UNION {PieceVars(e.labels[j][1]) \cup PieceVars(e.labels[j][2]) : j \in 1..Len(e.labels)}
+GroupUnseenBad(e) ==
+  \E k \in 1..Len(e.tslices) :
+    LET a == e.tslices[k][1]
+        w0 == e.tslices[k][2] - a
+        labs == SubSeq(e.labels, a + 1, a + w0)
+        nr == UnseenRows(e.train, e.new, Range(e.tfac[k]))
+        ncells == Len(GroupCells(e.train, e.tfac[k]))
+        ne == w0 \div ncells
+        b == e.slices[k][1]
+        w1 == e.slices[k][2] - b
+    IN \/ w1 # w0 + (IF nr = {} THEN 0 ELSE ne)
+       \/ \E r \in 1..e.new.n :
+            \/ \E j \in 1..w0 : e.data[r][b + j] # GroupLabelVal(e.new, labs[j], r)
+            \/ (nr # {} /\ \E j \in 1..ne :
+                   e.data[r][b + w0 + j] # (IF r \in nr THEN LabelVal(e.new, labs[j][1], r) ELSE 0))
+ExpectedNewFactors(e) ==
+  DistinctSeq(SelectSeq(e.tfac, LAMBDA g : UnseenRows(e.train, e.new, Range(g)) # {}))
+UnseenClause(e) ==
+  LET ur == UnseenRows(e.train, e.new, LabelVars(e)) IN
+  IF e.mode = "error" /\ ur # {} THEN (IF e.status = "ValueError" THEN "none" ELSE "unseen_level_not_refused_in_error_mode")
+  ELSE IF e.status # "ok" THEN "exception_on_new_data"
+  ELSE IF Len(e.data) # e.new.n THEN "rows_not_one_per_observation"
+  ELSE IF e.mode = "warning" /\ ur # {} /\ ~e.warned THEN "no_warning_in_warning_mode"
+  ELSE IF (e.mode = "silent" \/ ur = {}) /\ e.warned THEN "warning_although_silent_or_nothing_unseen"
+  ELSE IF e.part = "common" /\ CellsBad(e.new, [labels |-> e.labels, data |-> e.data], LabelVal) THEN "cells_differ_from_unseen_level_rule"
+  ELSE IF e.part = "group" /\ SlicesBad([slices |-> e.slices, labels |-> [k \in 1..(IF e.data = <<>> THEN 0 ELSE Len(e.data[1])) |-> k]]) THEN "slices_do_not_partition_columns"
+  ELSE IF e.part = "group" /\ GroupUnseenBad(e) THEN "group_block_rule_violated"
+  ELSE IF e.part = "group" /\ e.factors_new # ExpectedNewFactors(e) THEN "factors_with_new_levels_differ"
+  ELSE "none"
+
 RowsClause(e) ==
   IF e.status # "ok" THEN "exception"
   ELSE IF e.la # e.lb THEN "labels_changed"
@@ -122,6 +161,7 @@ Clause(e) ==
     [] e.kind = "rows" -> RowsClause(e)
     [] e.kind = "refuse" -> RefuseClause(e)
     [] e.kind = "object" -> ObjectClause(e)
+    [] e.kind = "unseen" -> UnseenClause(e)
 
 Init == i = 1 /\ nbad = 0
 Step ==
